@@ -536,6 +536,118 @@ func judge(w witness) (string, error) {
 	return checkOutcome(w.Scenario, o), nil
 }
 
+// ---- long runs: one long-lived handler, many completed control calls between two of its requests ----
+
+type fwdHandler struct{ target http.Handler }
+
+func (f *fwdHandler) ServeHTTP(w http.ResponseWriter, r *http.Request) { f.target.ServeHTTP(w, r) }
+
+// serveVia serves the named request through a handler that was obtained from Wrap long ago.
+func serveVia(h http.Handler, fw *fwdHandler, name string) string {
+	rs := requests[name]
+	hdr := make(http.Header, len(rs.hdr))
+	for k, v := range rs.hdr {
+		hdr[k] = append([]string(nil), v...)
+	}
+	inner := &innerHandler{}
+	fw.target = inner
+	w := &srw{h: http.Header{}}
+	h.ServeHTTP(w, &http.Request{Method: rs.method, Header: hdr, URL: &url.URL{Path: "/"}})
+	keys := make([]string, 0, len(w.h))
+	for k := range w.h {
+		keys = append(keys, k)
+	}
+	sort.Strings(keys)
+	var b strings.Builder
+	fmt.Fprintf(&b, "status=%d handler=%d", w.status, inner.calls)
+	for _, k := range keys {
+		fmt.Fprintf(&b, " %s=%q", k, w.h[k])
+	}
+	return b.String()
+}
+
+// two patterns: one in which every call changes the state, one with calls that change nothing mixed in (a failed
+// Reconfigure, SetDebug on a passthrough middleware, Config())
+var longRunPatterns = [][]opSpec{
+	{{"reconfigure", "B"}, {"reconfigure", "A+"}, {"setdebug", "true"}, {"reconfigure", "A"}, {"setdebug", "false"}},
+	{{"reconfigure", "B"}, {"reconfigure", "A+"}, {"setdebug", "true"}, {"reconfigure", "A"}, {"config", ""}, {"setdebug", "false"}, {"reconfigure", "invalid"}, {"reconfigure", "nil"}, {"setdebug", "true"}, {"reconfigure", "A"}, {"setdebug", "true"}},
+}
+
+var longRunProbes = []string{"preflight-fail-method", "actual-A", "actual-B", "actual-Aplus", "preflight-ok-B", "noncors-options"}
+
+// longRunGaps: how many completed control calls lie between two requests of the long-lived handler (every small
+// count, and every count around the powers of two at which a narrow generation counter would wrap).
+func longRunGaps(pat int) []int {
+	var g []int
+	if pat == 1 {
+		for k := 1; k <= 640; k++ { // dense: the number of state-changing calls among them varies with the pattern
+			g = append(g, k)
+		}
+		return g
+	}
+	for k := 1; k <= 70; k++ {
+		g = append(g, k)
+	}
+	for _, c := range []int{128, 256, 512, 768, 1024, 4096, 65536} {
+		for d := -3; d <= 3; d++ {
+			g = append(g, c+d)
+		}
+	}
+	return g
+}
+
+// longRun: a handler wrapped once; a request; gap control calls (no request in between); the probes through the
+// same handler must then be answered as a middleware built directly for the state the documented state machine
+// predicts. "" means fine.
+func longRun(init string, gap, pat int) string {
+	longRunPattern := longRunPatterns[pat]
+	m := newInit(init)
+	fw := &fwdHandler{}
+	h := m.Wrap(fw)
+	cfg, dbg := "A", init == "A+debug"
+	if init == "zero" {
+		cfg, dbg = "", false
+	}
+	for _, p := range longRunProbes {
+		serveVia(h, fw, p)
+	}
+	for i := 0; i < gap; i++ {
+		o := longRunPattern[i%len(longRunPattern)]
+		doOp(m, o)
+		switch {
+		case o.Kind == "config":
+		case o.Kind == "setdebug":
+			if cfg != "" {
+				dbg = o.Arg == "true"
+			}
+		case o.Arg == "nil":
+			cfg, dbg = "", false
+		case o.Arg != "invalid":
+			cfg = o.Arg
+		}
+	}
+	fresh := new(cors.Middleware)
+	if cfg != "" {
+		c := map[string]func() cors.Config{"A": cfgA, "B": cfgB, "A+": cfgAplus}[cfg]()
+		var err error
+		if fresh, err = cors.NewMiddleware(c); err != nil {
+			return "configuration " + cfg + " rejected: " + err.Error()
+		}
+		fresh.SetDebug(dbg)
+	}
+	ffw := &fwdHandler{}
+	fh := fresh.Wrap(ffw)
+	for _, p := range longRunProbes {
+		if got, want := serveVia(h, fw, p), serveVia(fh, ffw, p); got != want {
+			return fmt.Sprintf("a handler obtained from Wrap at the start served requests, then %d control calls completed (pattern %v repeated) with no request in between; request %s through that handler is now answered\n  %s\nbut the state is (configuration %q, debug %t), for which a fresh middleware answers\n  %s", gap, longRunPattern, p, got, cfg, dbg, want)
+		}
+	}
+	if got, want := renderConfig(m.Config()), renderConfig(fresh.Config()); got != want {
+		return fmt.Sprintf("after %d control calls Config() is %s, a fresh middleware for the predicted state says %s", gap, got, want)
+	}
+	return ""
+}
+
 // ---- scenario alphabet ----
 
 func scenarios(thorough bool) []scenario {
@@ -669,6 +781,15 @@ func main() {
 			raceSupplement(c)
 			os.Exit(c.Finish(level, rule))
 		}
+		if rest, ok := strings.CutPrefix(w.Scenario.Init, "long-run:"); ok {
+			var pat int
+			var init string
+			fmt.Sscanf(rest, "%d:%s", &pat, &init)
+			if bad := longRun(init, w.Scenario.Bound, pat); bad != "" {
+				c.Violation(w, vlib.Failf("%s", bad), nil, "")
+			}
+			os.Exit(c.Finish(level, rule))
+		}
 		bad, err := judge(w)
 		if err != nil {
 			vlib.HarnessError("%v", err)
@@ -678,6 +799,27 @@ func main() {
 		}
 		os.Exit(c.Finish(level, rule))
 	}
+	// sequential pre-pass: long runs (no scheduling involved; the oracle is the documented state machine)
+	for pat := range longRunPatterns {
+		for _, init := range []string{"A", "A+debug", "zero"} {
+			for _, gap := range longRunGaps(pat) {
+				c.States.Add(1)
+				c.Transitions.Add(int64(gap + 2*len(longRunProbes)))
+				c.Evaluations.Add(1)
+				if bad := longRun(init, gap, pat); bad != "" {
+					w := witness{Scenario: scenario{Init: fmt.Sprintf("long-run:%d:%s", pat, init), Bound: gap}}
+					c.Violation(w, vlib.Failf("%s", bad), func() *vlib.Failure {
+						if b := longRun(init, gap, pat); b != "" {
+							return vlib.Failf("%s", b)
+						}
+						return nil
+					}, "")
+					break
+				}
+			}
+		}
+	}
+	c.Set("long_run_gaps", len(longRunGaps(0))+len(longRunGaps(1)))
 	scs := scenarios(c.Thorough())
 	nw := runtime.NumCPU()
 	if nw > len(scs) {
